@@ -24,7 +24,7 @@ def handle (line : String) : String :=
   | op :: _ =>
     if op == "tpkt_read" || op == "x224_read" then c13 toks
     else if op == "tpkt_write" || op == "x224_write" then c14 toks
-    else if op == "blit" then c19 toks
+    else if op == "blit" || op == "blitz" then c19 toks
     else if op.startsWith "per_" then per toks
     else if op == "gsess" then gsess toks
     else if op == "decomp" then c08 toks
